@@ -1,7 +1,27 @@
-claim("C19", "other", "static analysis: interval-set evaluation of the magic dispatch, edge-deletion reachability for the header acceptance gate, bit-provenance of descriptor accessors over go/ssa",
+SA = "static analysis over go/ssa: "
+claim("C02", "other", SA+"guard-atom comparison of emission vs consumption sites, legacy-guard rules, table evaluation of block-size code/pool/buffer sizes, path search for buffer hand-off, destination provenance",
+      "Decides necessary conditions of every frame round trip for the whole option matrix at once (rules quantify over descriptor guards, not option values): field presence agreement between Writer and Reader, legacy neutrality, flush-before-trailer, size tables, buffer hand-off in concurrent mode, decode destination sizing, in-place compression only when nothing is pending, raw-flag pairing, enqueue order. It does not decide equality of decoded and original bytes.",
+      "DESIGN.md section 4, C02")
+claim("C05", "other", SA+"edge-deletion reachability of accepting returns behind checksum comparisons, guard atoms, hash-feed ordering, EOF provenance",
+      "Shows that no path of the Reader reaches a clean end of stream without the header, block and content checksum comparisons having succeeded (stored and compressed blocks, Read and WriteTo, sequential and concurrent), that the content hash is fed with the delivered bytes in order, and that a missing end mark cannot look like one. Hash values themselves are not evaluated.",
+      "DESIGN.md section 4, C05")
+claim("C06", "other", SA+"forward provenance of the error value of every source read (9 classified read sites), synthetic-io.EOF site table, must-pass-through CloseR",
+      "Decides the only way truncation can pass for completeness: an io.EOF from a mandatory field reaching the end-of-frame decision. Every read site's error is followed to all its escapes; only the first magic word and the legacy block size may yield a clean end. Prefix property of delivered bytes is not decided.",
+      "DESIGN.md section 4, C06")
+claim("C08", "other", SA+"lockset of the shared error latch, dominance/must-pass-through over goroutine closures (close-once, release-after-use, enqueue-before-spawn, shutdown protocol), path search for buffer ownership",
+      "Decides the structural discipline the pipelines rely on, each a necessary condition of race/deadlock/leak freedom; it does not explore interleavings. Known finding F16 (workers outlive Close) is reported, not suppressed beyond its two constructs.",
+      "DESIGN.md section 4, C08")
+claim("C09", "other", SA+"guard atoms of emitted fields, provenance of hashed arguments, trailer layout, descriptor constants, bit-provenance of accessors, size tables",
+      "Decides the shape-visible clauses of frame-format conformance (which fields, under which flags, in which order, covering which bytes, with which constants). Numeric checksum values and decoded content are not evaluated. Known findings F13 (block checksum covers uncompressed data) and F14 (legacy raw fallback).",
+      "DESIGN.md section 4, C09")
+claim("C15", "other", SA+"call-graph-derived set of I/O-reaching callees, discarded-error scan, path-sensitive 'pending error is never absorbed' walk (phis and named-result cells), synthetic io.EOF table, goroutine latch rules",
+      "Every error result of a call that can reach the sink or the source is used, and once such a call fails every path returns a non-nil error; io.EOF is never manufactured over a pending source error; the ordering goroutine stops writing after the first sink error. Prefix property of sink contents is not decided.",
+      "DESIGN.md section 4, C15")
+claim("C19", "other", SA+"interval-set evaluation of the magic dispatch, edge-deletion reachability for the header acceptance gate, bit-provenance of descriptor accessors",
       "Decides symbolically, for the whole 2^25 header space, which first words and which descriptors the header parser can accept: exact value sets of the magic dispatch, check-byte and block-size gates on every accepting path, accessor bit layout, ValidFrameHeader outcome classes, content-size provenance. The numeric value of XXH32 is not evaluated (C13).",
       "DESIGN.md section 4, C19")
+na("C01", "value-level equality decompress(compress(x)) == x over all byte strings depends on hash-table contents and match arithmetic that no sound static argument in reach can follow; its structural necessary conditions (offsets inside the window, literals flushed to the end, destination contract) are decided under C10 and C11")
 for i in range(1, 21):
     id = "C%02d" % i
-    if id not in CLAIMED:
-        na(id, "check under construction in this session (see DESIGN.md section 4 for the planned rules); C01 stays not applicable: value-level round trip")
+    if id not in CLAIMED and id not in NA:
+        na(id, "check under construction in this session (rules planned in DESIGN.md section 4)")
